@@ -226,7 +226,7 @@ func init() {
 		Chunk:    2,
 		NeedsCLI: true,
 		Count:    func(c *Ctx) int { return len(c20Configs) },
-		Rule: "case = one configuration and N seeds s = base+1..base+N: gotree sample -n k (with/without --replace) on n trees, n in {1,2,3,4,5,8}, k in {1,2,n-1,n,n+2}; gotree prune --random k (with/without -r) on 4..8 tips; gotree shuffletips (2, 3, 4 tips; library also on objects that were indexed before a tip was grafted), gotree rotate rand, gotree generate uniformtree (unrooted 4,5,6 and rooted 3,4,5 tips) executed in-process through cmd.RootCmd with every flag explicit, their library counterparts (ShuffleTips, RotateNeighbors, RandomUniformBinaryTree) directly, and seven configurations run through the shipped binary seed by seed and compared with the in-process outcome. Oracle: every outcome cell (tree subset / tuple, tip subset, permutation, labelled topology) against the uniform hypothesis with the exact two-sided binomial tail > 1e-9/#cells, every cell with expected count >= 50 seen; k >= n without replacement must return every tree. non-trivial = at least 2 outcome cells; distinct by configuration",
+		Rule:     "case = one configuration and N seeds s = base+1..base+N: gotree sample -n k (with/without --replace) on n trees, n in {1,2,3,4,5,8}, k in {1,2,n-1,n,n+2}; gotree prune --random k (with/without -r) on 4..8 tips; gotree shuffletips (2, 3, 4 tips; library also on objects that were indexed before a tip was grafted), gotree rotate rand, gotree generate uniformtree (unrooted 4,5,6 and rooted 3,4,5 tips) executed in-process through cmd.RootCmd with every flag explicit, their library counterparts (ShuffleTips, RotateNeighbors, RandomUniformBinaryTree) directly, and seven configurations run through the shipped binary seed by seed and compared with the in-process outcome. Oracle: every outcome cell (tree subset / tuple, tip subset, permutation, labelled topology) against the uniform hypothesis with the exact two-sided binomial tail > 1e-9/#cells, every cell with expected count >= 50 seen; k >= n without replacement must return every tree. non-trivial = at least 2 outcome cells; distinct by configuration",
 		Assumptions: []string{
 			"distributions are taken over the seed; resolution (smallest relative bias that would have been flagged) is measured and listed per configuration in the evidence; smaller biases are not claimed",
 			"false-alarm probability over the choice of VERIF_SEED <= 1e-9 per configuration; for a fixed VERIF_SEED the verdict is deterministic",
